@@ -71,6 +71,8 @@ structure St where
   connCid : List (String × String) := []      -- conn ↦ client id
   rx : List (String × List Rx) := []          -- client id ↦ entries
   connVer : List (String × Nat) := []
+  paused : List String := []                  -- connections whose scripted client has stopped reading
+  held : List Out := []                       -- what the broker wrote to them meanwhile, in order
 
 def St.rxOf (st : St) (cid : String) : List Rx := ((st.rx.find? (·.1 == cid)).map (·.2)).getD []
 def St.setRx (st : St) (cid : String) (l : List Rx) : St := { st with rx := (cid, l) :: st.rx.filter (·.1 != cid) }
@@ -123,10 +125,12 @@ def parseSubTopic (t : String) : SubTopic :=
       rh := match opts.find? (·.startsWith "rh") with | some o => natOf (o.drop 2).toString | none => 0 }
   | [] => { name := "", qos := 0 }
 
-/-- finish an op: track deliveries for ack bookkeeping, pump, render -/
+/-- finish an op: pump, set aside what goes to paused connections, track deliveries for ack bookkeeping, render -/
 def finish (st : St) (b : B) (pre : String := "") : St × String :=
   let b := b.pumpAll
-  let st := track { st with b := b }
+  let heldNow := b.out.filter (fun o => st.paused.contains o.conn)
+  let b := { b with out := b.out.filter (fun o => !st.paused.contains o.conn) }
+  let st := track { st with b := b, held := st.held ++ heldNow }
   let (b', s) := flush st.b
   ({ st with b := b' }, if pre.isEmpty then s else pre ++ " " ++ s)
 
@@ -198,8 +202,10 @@ def step (st : St) (line : String) : St × String :=
       if (b.cli? cn).isNone then (st, "no-conn") else finish st (b.emit cn false .pingresp)
     | "disc", cn :: _ =>
       if (b.cli? cn).isNone then (st, "no-conn") else
-      let (st, s1) := finish st (b.disconnectIn cn (getO m "se") (getN m "code" 0))
-      let (st, s2) := finish st (st.b.closeIn cn)
+      -- the broker closes the socket once readHandle has returned (writeLoop's exit closes it), so the connection
+      -- is already gone when the scripted client closes its own end
+      let (st, s1) := finish st ((b.disconnectIn cn (getO m "se") (getN m "code" 0)).closeIn cn)
+      let (st, s2) := finish st st.b
       (st, s1 ++ " " ++ s2)
     | "close", cn :: _ =>
       if (b.cli? cn).isNone then (st, "no-conn") else finish st (b.closeIn cn)
@@ -234,6 +240,14 @@ def step (st : St) (line : String) : St × String :=
     | "raw", cn :: _ =>
       -- the scenarios only send bytes that no MQTT decoder accepts: malformed packet
       if (b.cli? cn).isNone then (st, "no-conn") else finish st (b.kick cn (some 0x81))
+    | "pause", cn :: _ =>
+      if (b.cli? cn).isNone then (st, "no-conn") else finish { st with paused := cn :: st.paused } b
+    | "resume", cn :: _ =>
+      if (b.cli? cn).isNone then (st, "no-conn") else
+      -- everything written meanwhile arrives now, in order
+      let mine := st.held.filter (·.conn == cn)
+      let st := { st with paused := st.paused.filter (· != cn), held := st.held.filter (·.conn != cn) }
+      finish st { b with out := mine ++ b.out }
     | "sleep", ms :: _ => finish st (b.sleep (natOf ms))
     | _, _ => (st, "bad-op")
   | [] => (st, "bad-op")
